@@ -1,10 +1,10 @@
 //! C10 runner: the same assembly repeated in ONE process — sequentially (after whatever was assembled before: every
 //! earlier line of stdin is the history) and concurrently on 16 threads — one canonical digest per run.
-//!   A <mode D|V> <K> <budget> <static 0|1> <matching 0|1> <roots hexname,hexname..> <files hexname=hexcontent;..>
+//!   A <mode D|V> <K[:T]> <budget> <static 0|1> <matching 0|1> <roots hexname,hexname..> <files hexname=hexcontent;..>
 //!        -> R <status> <seq> <thr>     (D: digests; seq / thr = the DISTINCT digests of the K sequential / 16 threaded runs as
 //!                                       `digest*count,..` in order of first appearance)   status = OK | ERR | INCONSISTENT | PANIC (of run 1)
 //!        -> V <status> <hex of the canonical text of run 1>   (V: for replays)
-//!   F <mode D|V> <K> <hex format string>          the same for driver::parse_output_format (diagnostics of bad format strings)
+//!   F <mode D|V> <K[:T]> <hex format string>          the same for driver::parse_output_format (diagnostics of bad format strings)
 //! canonical text of one run = success flag, error flag, iterations, bits, every output format through the driver's
 //! format_output (all formatters, two parameter sets for the parametrised ones), and the diagnostics as printed by
 //! report.print_all with colours off.  Digest = 128 bits (two FNV-1a-64 lanes with different offsets and a final mix).
@@ -127,19 +127,28 @@ fn run_format_once(s: &str) -> (String, Vec<u8>) {
     r.unwrap_or(("PANIC".to_string(), b"PANIC".to_vec()))
 }
 
-fn repeat<F>(k: usize, mode: &str, f: F) -> String
+/// "K" or "K:T" (T = number of simultaneous threads, default 16)
+fn counts(s: &str) -> (usize, usize) {
+    let mut it = s.split(':');
+    let k = it.next().and_then(|x| x.parse().ok()).unwrap_or(2);
+    let t = it.next().and_then(|x| x.parse().ok()).unwrap_or(THREADS);
+    (k, t)
+}
+
+fn repeat<F>(kt: (usize, usize), mode: &str, f: F) -> String
 where F: Fn() -> (String, Vec<u8>) + Send + Sync + Clone + 'static {
     let (status, first) = f();
     if mode == "V" {
         return format!("V\t{}\t{}", status, hex_bytes(&first));
     }
+    let (k, threads) = kt;
     let mut seq = vec![digest(&first)];
     for _ in 1..k {
         seq.push(digest(&f().1));
     }
-    let barrier = std::sync::Arc::new(std::sync::Barrier::new(THREADS));
+    let barrier = std::sync::Arc::new(std::sync::Barrier::new(threads.max(1)));
     let mut hs = Vec::new();
-    for _ in 0..THREADS {
+    for _ in 0..threads {
         let g = f.clone();
         let b = barrier.clone();
         let h = std::thread::Builder::new().stack_size(64 << 20).spawn(move || {
@@ -167,7 +176,7 @@ fn main() {
         let f: Vec<&str> = line.split('\t').collect();
         match f[0] {
             "A" if f.len() >= 8 => {
-                let k: usize = f[2].parse().unwrap_or(2);
+                let k = counts(f[2]);
                 let case = Case {
                     budget: f[3].parse().unwrap_or(10), stat: f[4] == "1", matching: f[5] == "1",
                     roots: f[6].split(',').filter(|s| !s.is_empty()).map(unhex).collect(),
@@ -181,7 +190,7 @@ fn main() {
                 repeat(k, f[1], move || run_once(&c))
             }
             "F" if f.len() >= 4 => {
-                let k: usize = f[2].parse().unwrap_or(2);
+                let k = counts(f[2]);
                 let s = std::sync::Arc::new(unhex(f[3]));
                 repeat(k, f[1], move || run_format_once(&s))
             }
